@@ -136,8 +136,8 @@ def check_literal_perm_pairs(model, R, P, pairs):
     R.rule(P + '.POOLPERM', 'the literal transpose applied to the pooled output is undone by its inverse permutation on the incoming gradient', floor=len(pairs))
     for fq, bq in pairs:
         fk, bk = model.func(fq), model.func(bq)
-        fperm = _literal_transposes(fk)
-        bperm = _literal_transposes(bk)
+        fperm = _literal_transposes(fk, model)
+        bperm = _literal_transposes(bk, model)
         if len(fperm) != 1 or len(bperm) != 1:
             R.incomplete_at(P + '.POOLPERM', bk.qualname, 'expected one literal transpose on each side, got %d / %d' % (len(fperm), len(bperm)))
             continue
@@ -151,12 +151,17 @@ def check_literal_perm_pairs(model, R, P, pairs):
              'backward must apply the inverse permutation %s to the gradient' % (inv,), bk.loc)
 
 
-def _literal_transposes(f):
+def _literal_transposes(f, model=None):
+    from .npcanon import literal_perm
     out = []
     for n in body_walk(f.node):
-        if isinstance(n, ast.Call) and isinstance(n.func, ast.Attribute) and n.func.attr == 'transpose' and n.args \
-                and all(isinstance(a, ast.Constant) and isinstance(a.value, int) for a in n.args):
-            out.append((tuple(a.value for a in n.args), n.func.value))
+        if isinstance(n, ast.Call):
+            lp = literal_perm(model, f, n) if model is not None else None
+            if lp is not None:
+                out.append(lp)
+            elif isinstance(n.func, ast.Attribute) and n.func.attr == 'transpose' and n.args and dotted(n.func.value) not in ('np', 'numpy') \
+                    and all(isinstance(a, ast.Constant) and isinstance(a.value, int) for a in n.args):
+                out.append((tuple(a.value for a in n.args), n.func.value))
     return out
 
 
